@@ -1075,19 +1075,16 @@ class StubsStringGenerator:
                     qname = class_id.replace("/", ".")
 
                     name = qname.split(".")[-1]
-                    shortest_qname, _ = _get_shortest_public_reexport(
-                        reexport_map=self.api.reexport_map,
-                        name=name,
-                        qname=qname,
-                        is_module=False,
-                    )
 
-                    # The class is only declared in the reexporting package if that path is shorter than the path
-                    # of its own module (see _has_node_shorter_reexport), otherwise it stays where it is defined
+                    # The class is only declared in a reexporting package if that path is shorter than the path of
+                    # its own module (see _has_node_shorter_reexport), otherwise it stays where it is defined. Only
+                    # the packages that reexport this very class count, not those that reexport a class of that name
                     module_ids = [module_id for module_id in self.api.modules if class_id.startswith(f"{module_id}/")]
-                    module_length = max((len(module_id.split("/")) for module_id in module_ids), default=0)
-                    if shortest_qname and len(shortest_qname.split(".")) < module_length:
-                        qname = f"{shortest_qname}.{name}"
+                    shortest_length = max((len(module_id.split("/")) for module_id in module_ids), default=0)
+                    for reexport_module in self.api.classes[class_id].reexported_by:
+                        if len(reexport_module.id.split("/")) < shortest_length:
+                            shortest_length = len(reexport_module.id.split("/"))
+                            qname = f"{reexport_module.id.replace('/', '.')}.{name}"
 
                     in_package = True
                     break
